@@ -643,7 +643,10 @@ MANIFEST_ENTRY = {
                   'for it is aborted / paused / removed at a generated offset (virtual ms + loop iterations) after the '
                   'k-th path calculation and queued again later, while further equally named downloads arrive; a '
                   'download whose abort / pause / removal is in progress does not count as active; additionally no '
-                  'download may be left INITIALIZING / DOWNLOADING without a task. '
+                  'download may be left INITIALIZING / DOWNLOADING without a task; optionally a keep-directory chain '
+                  'is configured and the uploaders report directories that are named like the file or are 300 '
+                  'characters long (cannot be created) next to an equally named active / finished / pre-existing file '
+                  'in the download root. '
                   'Pure part only checks the path chosen by the naming layer (what TransferManager._prepare_download_path '
                   'joins and opens); regular-name and freshness predicates are asserted only for the chains whose '
                   'strategies promise them (see assumptions). POSIX file system; no symlinks, no NUL in paths.',
